@@ -25,7 +25,7 @@ func TestC08Spelling(t *testing.T) {
 	rapid.Check(t, func(t *rapid.T) {
 		kind := rapid.SampledFrom([]gtab.Type{gtab.TypeGsub, gtab.TypeGpos}).Draw(t, "kind")
 		env := lookups.GenEnv(rapid.Bool().Draw(t, "wide")).Draw(t, "env")
-		opt := lookups.Options{Kind: kind, Mode: lookups.Defined, MinLookups: 1, MaxLookups: 6, Unimplemented: true,
+		opt := lookups.Options{Kind: kind, Mode: lookups.Defined, MinLookups: 1, MaxLookups: 6, Unimplemented: true, Allow: lookups.AllEncodableFormats(kind),
 			Skip: func(string) bool { return true }}
 		r := lookups.GenInfo(env, opt, lookups.InfoOptions{MaxFeatures: 10}).Draw(t, "info")
 		info := r.Info
